@@ -185,3 +185,41 @@ def redundant_cnf(rng):
     R = [r for r in R if r[0] == S] + [r for r in R if r[0] != S]
     vs = sorted({A for (A, _) in R})
     return cf.make(vs, ts, R, S)
+
+
+AMBIGUOUS_NAMES = ['A', 'B', 'AB', 'BA', 'AA', 'BB', 'ABA', 'BAB', 'X', 'XX', 'XXX', 'S', 'SS']
+
+
+def multichar_renaming(rng, RG):
+    """the same grammar with multi-character variable names whose concatenations are ambiguous
+    (['A','BC'] and ['AB','C'] both spell ABC): legal for CFG objects built through the API
+    (pda_to_cfg and the conversion with >= 26 variables produce multi-character names as well)"""
+    vs = list(RG[0])
+    pool = list(AMBIGUOUS_NAMES)
+    rng.shuffle(pool)
+    if len(vs) > len(pool):
+        return RG
+    return rename_vars(RG, dict(zip(vs, pool[:len(vs)])))
+
+
+def start_twins(RG):
+    """grammars with the same rule list, variables and terminals but another start variable"""
+    return [cf.make(RG[0], RG[1], RG[2], v) for v in RG[0] if v != RG[3]]
+
+
+def ambiguous_concat_cnf(rng):
+    """CNF grammar in which two different right-hand sides / sentential forms spell the same string when the
+    variable names are concatenated: S -> A BA | AB A (both spell ABA), each variable with its own terminals"""
+    splits = [(('A', 'BA'), ('AB', 'A')), (('A', 'BC'), ('AB', 'C')), (('X', 'XX'), ('XX', 'X')), (('A', 'AB'), ('AA', 'B')), (('AB', 'AB'), ('A', 'BAB'))]
+    (l1, l2) = rng.choice(splits)
+    vs = sorted(set(l1) | set(l2) | {'S'})
+    ts = 'abcdef'
+    R = [('S', (V(l1[0]), V(l1[1]))), ('S', (V(l2[0]), V(l2[1])))]
+    if rng.random() < 0.5:
+        R.reverse()
+    for i, A in enumerate([v for v in vs if v != 'S']):
+        R.append((A, (T(ts[i % len(ts)]),)))
+        if rng.random() < 0.4:
+            R.append((A, (V(rng.choice([v for v in vs if v != 'S'])), V(rng.choice([v for v in vs if v != 'S'])))))
+    used_t = sorted({x for (_, r) in R for (k, x) in r if k == 'T'})
+    return cf.make(vs, used_t, R, 'S')
